@@ -11,14 +11,102 @@ import (
 // ---------------------------------------------------------------------------------------
 // Name pools. The expected environment name fragment and the implicit flag name are written
 // by hand next to each Go identifier, so that strutil.Underscore / strings.ToLower are not
-// re-implemented by the monitor. Only identifiers whose upper snake case is beyond dispute
-// are used (plain CamelCase words; UserID and MysqlDSN appear in glb's own Underscore tests).
+// re-implemented by the monitor. fieldPoolWords holds plain CamelCase words whose upper snake
+// case is beyond dispute (UserID and MysqlDSN appear in glb's own Underscore tests).
+// fieldPoolBranches walks the word-boundary rule that glb documents (the comment "ABc => A_Bc"
+// in Underscore and its test table: userId, UserID, MysqlDSN, S3AccessKey, 9PProtocol, Hex2bin,
+// "Regular 4G"), worked out by hand for every entry:
+//   - a capital starts a new word when the character before it is a lower-case letter, or when
+//     the character after it is a lower-case letter (so the last capital of a run belongs to the
+//     word that follows: ABc = A|Bc, UserIDs = User|I|Ds);
+//   - digits never start a word and a lower-case letter after a digit stays in the word (A1b);
+//     a capital after a digit starts a word only when a lower-case letter follows it (A1Bc = A1|Bc,
+//     A1B = A1B);
+//   - an underscore in the identifier is a word boundary itself (runs collapse, a trailing one vanishes).
+// The rule is applied the same way at the start, in the middle and at the very end of a name:
+// capital runs of length 1, 2 and 3 before a lower-case letter at each position, capitals and
+// digits last, single-letter words, names of one to three characters.
 
 type nameEnt struct {
 	Go, Env, Lower, Kebab string
 }
 
-var fieldPool = []nameEnt{
+var fieldPool = append(append([]nameEnt{}, fieldPoolWords...), fieldPoolBranches...)
+
+var fieldPoolBranches = []nameEnt{
+	// one to three characters
+	{"A", "A", "a", "a"},
+	{"Ab", "AB", "ab", "ab"},
+	{"AB", "AB", "ab", "ab-caps"},
+	{"Abc", "ABC", "abc", "abc"},
+	{"ABc", "A_BC", "abc", "a-bc"},
+	{"AbC", "AB_C", "abc", "ab-c"},
+	{"ABC", "ABC", "abc", "abc-caps"},
+	{"A1", "A1", "a1", "a1"},
+	{"A1b", "A1B", "a1b", "a1b"},
+	{"A1B", "A1B", "a1b", "a1b-caps"},
+	{"V2", "V2", "v2", "v2"},
+	{"IDs", "I_DS", "ids", "i-ds"},
+	{"Ip", "IP", "ip", "ip"},
+	// capital runs of length 1, 2, 3 before a lower-case letter: at the start ...
+	{"ABCd", "AB_CD", "abcd", "ab-cd"},
+	{"ABCde", "AB_CDE", "abcde", "ab-cde"},
+	{"IPAddr", "IP_ADDR", "ipaddr", "ip-addr"},
+	{"APIKey", "API_KEY", "apikey", "api-key"},
+	{"HTTPServer", "HTTP_SERVER", "httpserver", "http-server"},
+	{"OAuth", "O_AUTH", "oauth", "o-auth"},
+	{"ATeam", "A_TEAM", "ateam", "a-team"},
+	// ... in the middle ...
+	{"XyAbZz", "XY_AB_ZZ", "xyabzz", "xy-ab-zz"},
+	{"XyABcZz", "XY_A_BC_ZZ", "xyabczz", "xy-a-bc-zz"},
+	{"XyABCdZz", "XY_AB_CD_ZZ", "xyabcdzz", "xy-ab-cd-zz"},
+	{"MyHTTPServer", "MY_HTTP_SERVER", "myhttpserver", "my-http-server"},
+	{"GetXValue", "GET_X_VALUE", "getxvalue", "get-x-value"},
+	{"IsAOk", "IS_A_OK", "isaok", "is-a-ok"},
+	// ... and at the very end
+	{"XyAb", "XY_AB", "xyab", "xy-ab"},
+	{"XyABc", "XY_A_BC", "xyabc", "xy-a-bc"},
+	{"XyABCd", "XY_AB_CD", "xyabcd", "xy-ab-cd"},
+	{"UserIDs", "USER_I_DS", "userids", "user-i-ds"},
+	{"TxIDs", "TX_I_DS", "txids", "tx-i-ds"},
+	{"GetXy", "GET_XY", "getxy", "get-xy"},
+	// capitals last
+	{"XyA", "XY_A", "xya", "xy-a"},
+	{"XyAB", "XY_AB", "xyab", "xy-ab-caps"},
+	{"XyABC", "XY_ABC", "xyabc", "xy-abc-caps"},
+	{"GetX", "GET_X", "getx", "get-x"},
+	{"TeamA", "TEAM_A", "teama", "team-a"},
+	{"AddrIP", "ADDR_IP", "addrip", "addr-ip"},
+	{"KeyAPI", "KEY_API", "keyapi", "key-api"},
+	{"ServerHTTP", "SERVER_HTTP", "serverhttp", "server-http"},
+	// digits before and after capitals, at every position
+	{"Http2Tx", "HTTP2_TX", "http2tx", "http2-tx"},
+	{"Http2T", "HTTP2T", "http2t", "http2t"},
+	{"Http2", "HTTP2", "http2", "http2"},
+	{"X509Cert", "X509_CERT", "x509cert", "x509-cert"},
+	{"X509CERT", "X509CERT", "x509cert", "x509cert-caps"},
+	{"TLSv1", "TL_SV1", "tlsv1", "tl-sv1"},
+	{"A1Bc", "A1_BC", "a1bc", "a1-bc"},
+	{"A1BCd", "A1B_CD", "a1bcd", "a1b-cd"},
+	{"Xy1Z", "XY1Z", "xy1z", "xy1z"},
+	{"Xy1Zz", "XY1_ZZ", "xy1zz", "xy1-zz"},
+	{"Xy12", "XY12", "xy12", "xy12"},
+	{"P2p", "P2P", "p2p", "p2p"},
+	{"Go1x", "GO1X", "go1x", "go1x"},
+	{"Utf8", "UTF8", "utf8", "utf8"},
+	{"UTF8Bom", "UTF8_BOM", "utf8bom", "utf8-bom"},
+	{"Sha256", "SHA256", "sha256", "sha256"},
+	// underscores in the identifier
+	{"A_b", "A_B", "a_b", "a_b"},
+	{"Ab_Cd", "AB_CD", "ab_cd", "ab_cd"},
+	{"AB_Cd", "AB_CD", "ab_cd", "ab_cd-caps"},
+	{"A__B", "A_B", "a__b", "a__b"},
+	{"Ab_", "AB", "ab_", "ab_"},
+	{"Ab_1", "AB_1", "ab_1", "ab_1"},
+	{"Ab_c", "AB_C", "ab_c", "ab_c"},
+}
+
+var fieldPoolWords = []nameEnt{
 	{"Host", "HOST", "host", "host"},
 	{"Port", "PORT", "port", "port"},
 	{"MaxConn", "MAX_CONN", "maxconn", "max-conn"},
@@ -54,12 +142,33 @@ var groupPool = []nameEnt{
 	{"RateLimit", "RATE_LIMIT", "ratelimit", "rate-limit"},
 	{"Upstream", "UPSTREAM", "upstream", "upstream"},
 	{"Auth", "AUTH", "auth", "auth"},
+	// word-boundary rule inside a group path (see fieldPoolBranches); disjoint from the field names
+	{"NodeIDs", "NODE_I_DS", "nodeids", "node-i-ds"},
+	{"Tls2Rx", "TLS2_RX", "tls2rx", "tls2-rx"},
+	{"PeerAB", "PEER_AB", "peerab", "peer-ab"},
+	{"B1", "B1", "b1", "b1"},
 }
 
 // ---------------------------------------------------------------------------------------
 // Value pools per type: zero, one, extremes, awkward.
 
 func fb(f float64) uint64 { return math.Float64bits(f) }
+
+// intLiteralSpellings: render integers for the text sources also as Go literals (0x.., 0o.., 0b..,
+// leading-0 octal, _ separators). config mirrors the standard flag package, whose integer flags
+// "accept 1234, 0664, 0x1234"; all four integer kinds parse with strconv base 0 and the reference
+// grammar of C10 assumes the same syntax. The statement does not spell the syntax out, which is
+// recorded under Assumptions.
+const intLiteralSpellings = true
+
+func init() {
+	if !intLiteralSpellings {
+		return
+	}
+	// one value per spelling and a few more: 0644-style octal, hex, 0o, 0b, _ separators
+	intPool = append(intPool, Val{I: 0o644, Fmt: 4}, Val{I: 255, Fmt: 1}, Val{I: -255, Fmt: 1}, Val{I: 15, Fmt: 2}, Val{I: 5, Fmt: 3}, Val{I: 1000000, Fmt: 5}, Val{I: math.MinInt64, Fmt: 1})
+	uintPool = append(uintPool, Val{U: 0o644, Fmt: 4}, Val{U: 8, Fmt: 4}, Val{U: math.MaxUint64, Fmt: 1}, Val{U: 15, Fmt: 2}, Val{U: 5, Fmt: 3}, Val{U: 1000000, Fmt: 5})
+}
 
 var boolPool = []Val{{B: false}, {B: true}}
 
@@ -487,11 +596,16 @@ func latticeCase(r *rand.Rand, c latticeCell, sch [4]*Val, syn int) (*Case, *Fie
 
 	groups := pickGroups(r, c.depth)
 	fes := r.Perm(len(fields()))
+	usedFold := map[string]bool{} // no two JSON keys of one object that differ in case or underscores only
 	pickName := func(f *Field) string {
 		for {
 			fe := fields()[fes[0]]
 			fes = fes[1:]
+			if usedFold[foldKey(fe.Go)] {
+				continue
+			}
 			if nm.name(f, groups, fe, r.Intn(4), r.Intn(2) == 0) {
+				usedFold[foldKey(fe.Go)] = true
 				return fe.Go
 			}
 		}
@@ -694,11 +808,11 @@ func randStruct(r *rand.Rand, o *structOpts) *Case {
 		named := false
 		for _, fi := range r.Perm(len(fields())) {
 			fe := fields()[fi]
-			if d.used[fe.Go] {
+			if d.used[foldKey(fe.Go)] {
 				continue
 			}
 			if nm.name(f, d.groups, fe, r.Intn(4), r.Intn(2) == 0) {
-				d.used[fe.Go] = true
+				d.used[foldKey(fe.Go)] = true
 				d.nodes = append(d.nodes, &Node{Name: fe.Go, Leaf: f})
 				named = true
 				break
